@@ -8,6 +8,7 @@ from pyvc.unit import unit
 GR = "androguard/decompiler/graph.py"
 DF = "androguard/decompiler/dataflow.py"
 META = {
+    "technique": 'bounded stand-in (not proved): reaching-definitions contract evaluated on exhaustive small instruction graphs',
     "level": "exploration",
     "partial": True,
     "level_text": "Bounded stand-in (NOT a proof): the contract 'UD[var, loc] is exactly the set of definitions of var (parameters "
